@@ -122,6 +122,9 @@ def der_expect(s, which=W_FULL):
         r = C.der_dec2(s, 0x7F21)
         if r:
             e[D_CVCLEN] = (sat(r[1]), 0, 0, 0)
+    for d in range(12):
+        if not which >> d & 1:
+            e[d] = (0, 0, 0, 0)          # decoder not run: the helper leaves an empty entry
     return e, bits, gate
 
 def tag_class(s):
@@ -316,9 +319,18 @@ def der_job(job):
     outcomes = {}
     for i, s in enumerate(strings(prefix, n, alph, start, cnt)):
         r = raw1[176 * i:176 * i + 176]
-        js = der_judge(s, r, which)
         if r[8] != 0xFF:
             acc += 1
+        # fast path: the record is exactly the reference's record
+        exp, xbits, gate = der_expect(s, which)
+        flat = []
+        for e in exp:
+            flat += e
+        if which >> D_SEQ & 1 and gate:
+            xbits |= 1 << 10
+        if r == DER_REC.pack(0, xbits, 0, *flat) and (raw0 is None or raw0[176 * i:176 * i + 176] == r):
+            continue
+        js = der_judge(s, r, which)
         for key, fn, kind, detail in js:
             rec = {'cfg': cfg, 'kind': 'der', 'hex': s.hex(), 'which': which}
             F.add(key, (len(s), s.hex(), DNAME.index(fn)), rec, '%s(%s): %s [%s]' % (fn, s.hex() or '<empty>', detail, kind), fn)
